@@ -120,7 +120,9 @@ def native_read(name, conc, notes):
     """the real sdo_read against the executable server: values of several
     lengths, with and without subindex, with and without unrelated mail"""
     bad = []
-    for value in (b"", b"abc", bytes(range(20)), bytes(range(60))):
+    # every length up to several segments: the boundary cases (a last segment
+    # of exactly 7 bytes, a first mail that is exactly full) are among them
+    for value in [bytes((7 * k + 1) % 256 for k in range(n)) for n in range(0, 81)]:
         for sub in (1, None):
             for noise in (0, 1):
                 for in_sz in (32, 64):
@@ -133,10 +135,10 @@ def native_read(name, conc, notes):
                             bad.append((len(value), sub, noise, in_sz, f"returned {got!r}"))
                     except Exception as e:      # noqa
                         bad.append((len(value), sub, noise, in_sz, f"{type(e).__name__}: {e}"))
-    return {"inputs": {"tried": "value lengths 0/3/20/60 x subindex 1/None x unrelated mail 0/1 x mbx_in_sz 32/64"},
+    return {"inputs": {"tried": "value lengths 0..80 x subindex 1/None x unrelated mail 0/1 x mbx_in_sz 32/64"},
             "reproduced": True if bad else None,
             "detail": f"real Terminal.sdo_read against a conformant SDO server; failing (len, subindex, unrelated "
-                      f"mail, mbx_in_sz, outcome): {bad[:4]} ({len(bad)} of 32 cases)"}
+                      f"mail, mbx_in_sz, outcome): {bad[:4]} ({len(bad)} of 648 cases)"}
 
 
 def native(name, conc, notes):
